@@ -193,6 +193,45 @@ Proof. induction n as [|n IH]; intros i j Hj Hh m0 x.
     { rewrite (tr_unfold i j Hj). apply height_child. apply in_map_iff. exists k. split; auto. }
     lia. Qed.
 
+(* Asynchronous sweeps (what the code does: first every factor -> variable message, then every variable -> factor message, each
+   half using the other half's latest values).  A step recomputes the messages selected by U from the current ones and keeps the others.
+   As long as all messages of height <= k are true, any step keeps every true message of height <= k+1 true and makes every SELECTED
+   message of height <= k+1 true; so a sweep - any sequence of steps that selects every message at least once - raises k by one. *)
+Definition astep (U : nat -> nat -> bool) (m : nat -> nat -> tbl) : nat -> nat -> tbl :=
+  fun i j => if U i j then flood m i j else m i j.
+Definition exact_upto (k : nat) (m : nat -> nat -> tbl) : Prop :=
+  forall i j, In j (nbrs i) -> height (tr i j) <= k -> forall x, m i j x = Mtrue i j x.
+Lemma flood_from_exact k m i j : exact_upto k m -> In j (nbrs i) -> height (tr i j) <= S k -> forall x, flood m i j x = Mtrue i j x.
+Proof. intros E Hj Hh x. unfold flood. rewrite (Mtrue_rec i j Hj). apply sum_vars_ext. intros y. unfold F. f_equal. f_equal.
+  apply map_ext_in. intros k0 Hk0. pose proof Hk0 as Hk. unfold others in Hk. apply filter_In in Hk. destruct Hk as [Hk _].
+  apply E. now apply nbrs_sym.
+  assert (HC : height (tr k0 i) < height (tr i j)).
+  { rewrite (tr_unfold i j Hj). apply height_child. apply in_map_iff. exists k0. split; auto. }
+  lia. Qed.
+Lemma astep_keeps k U m : exact_upto k m -> exact_upto k (astep U m).
+Proof. intros E i j Hj Hh x. unfold astep. destruct (U i j). apply (flood_from_exact k m i j E Hj). lia. now apply E. Qed.
+Lemma astep_edge k U m i j : exact_upto k m -> In j (nbrs i) -> height (tr i j) <= S k ->
+  (U i j = true \/ forall x, m i j x = Mtrue i j x) -> forall x, astep U m i j x = Mtrue i j x.
+Proof. intros E Hj Hh H x. unfold astep. destruct (U i j) eqn:EU. now apply (flood_from_exact k m i j E Hj Hh). destruct H as [H|H]. discriminate. apply H. Qed.
+Definition asweep (Us : list (nat -> nat -> bool)) (m : nat -> nat -> tbl) := fold_left (fun m U => astep U m) Us m.
+Lemma asweep_keeps k Us : forall m, exact_upto k m -> exact_upto k (asweep Us m).
+Proof. induction Us as [|U r IH]; intros m E; simpl; auto. apply IH. now apply astep_keeps. Qed.
+Lemma asweep_edge k Us : forall m i j, exact_upto k m -> In j (nbrs i) -> height (tr i j) <= S k ->
+  (existsb (fun U => U i j) Us = true \/ forall x, m i j x = Mtrue i j x) -> forall x, asweep Us m i j x = Mtrue i j x.
+Proof. induction Us as [|U r IH]; intros m i j E Hj Hh H; simpl in *.
+  - destruct H as [H|H]. discriminate. exact H.
+  - apply IH; auto. now apply astep_keeps.
+    destruct H as [H|H].
+    + apply orb_true_iff in H. destruct H as [H|H]. right. apply (astep_edge k U m i j E Hj Hh). now left. now left.
+    + right. apply (astep_edge k U m i j E Hj Hh). now right. Qed.
+(* one full sweep raises the exactness level by one; n sweeps reach level n from ANY initial messages *)
+Definition covers (Us : list (nat -> nat -> bool)) : Prop := forall i j, In j (nbrs i) -> existsb (fun U => U i j) Us = true.
+Lemma asweep_raises k Us m : covers Us -> exact_upto k m -> exact_upto (S k) (asweep Us m).
+Proof. intros C E i j Hj Hh x. apply (asweep_edge k Us m i j E Hj Hh). left. now apply C. Qed.
+Lemma exact_upto_0 m : exact_upto 0 m.
+Proof. intros i j Hj Hh. exfalso. destruct (tr i j); simpl in Hh; lia. Qed.
+Theorem asweeps_reach_true_messages Us (C : covers Us) n m0 : exact_upto n (Nat.iter n (asweep Us) m0).
+Proof. induction n as [|n IH]; simpl. apply exact_upto_0. now apply asweep_raises. Qed.
 Definition flood_belief (n : nat) (m0 : nat -> nat -> tbl) (c : nat) : tbl :=
   fun x => mul R (psi c x) (prodl R (map (fun k => Nat.iter n flood m0 k c x) (nbrs c))).
 Theorem flood_exact n m0 total c0 c x : (forall i j, In j (nbrs i) -> height (tr i j) <= n) -> c0 < ncl -> c < ncl -> valid x ->
@@ -204,4 +243,137 @@ Proof. intros H H0 Hc Vx.
     unfold flood_belief. f_equal. f_equal. apply map_ext_in. intros k Hk. apply flood_reaches_true_messages. now apply nbrs_sym. apply H. now apply nbrs_sym. }
   rewrite <- (bp_exact total c0 c x H0 Hc Vx). unfold marginal. rewrite E by auto. f_equal. f_equal. unfold Zof.
   apply sum_vars_ext_on. intros y A Rg. apply E; auto. exact (@valid_fibre shape _ _ _ base0_valid A Rg). Qed.
+
+(* beliefs from any messages that are true on every edge: the brute-force marginals *)
+Definition belief_of_msgs (m : nat -> nat -> tbl) (c : nat) : tbl := fun x => mul R (psi c x) (prodl R (map (fun k => m k c x) (nbrs c))).
+Theorem true_messages_give_marginals n m total c0 c x : exact_upto n m -> (forall i j, In j (nbrs i) -> height (tr i j) <= n) ->
+  c0 < ncl -> c < ncl -> valid x ->
+  mul R (belief_of_msgs m c x) (div R total (sum_vars (scope c0) (belief_of_msgs m c0) base0)) = @brute R shape D ncl psi total (scope c) x.
+Proof. intros EX H H0 Hc Vx.
+  assert (E : forall c' y, c' < ncl -> valid y -> belief_of_msgs m c' y = bel (run sch init) c' y).
+  { intros c' y Hc' Vy.
+    rewrite (run_beliefs R shape D ncl scope nbrs psi nbrs_nodup nbrs_sym nbrs_lt psi_dep Mtrue Mtrue_rec Mtrue_indep sch sch_valid sch_complete c' y Hc' Vy).
+    unfold belief_of_msgs. f_equal. f_equal. apply map_ext_in. intros k Hk. apply EX. now apply nbrs_sym. apply H. now apply nbrs_sym. }
+  rewrite <- (bp_exact total c0 c x H0 Hc Vx). unfold marginal. rewrite E by auto. f_equal. f_equal. unfold Zof.
+  apply sum_vars_ext_on. intros y A Rg. apply E; auto. exact (@valid_fibre shape _ _ _ base0_valid A Rg). Qed.
+Corollary asweeps_exact Us n m0 total c0 c x : covers Us -> (forall i j, In j (nbrs i) -> height (tr i j) <= n) -> c0 < ncl -> c < ncl -> valid x ->
+  mul R (belief_of_msgs (Nat.iter n (asweep Us) m0) c x) (div R total (sum_vars (scope c0) (belief_of_msgs (Nat.iter n (asweep Us) m0) c0) base0))
+  = @brute R shape D ncl psi total (scope c) x.
+Proof. intros C. apply true_messages_give_marginals. now apply asweeps_reach_true_messages. Qed.
+
+(* ---- the form the code runs: messages rescaled (normalised) after each update, computed by division ----
+   Messages need only be true UP TO a non-zero scalar: the update is homogeneous, so rescaling the recomputed message by any non-zero
+   factor (the code subtracts its logsumexp) keeps it proportional to the true one; the final normalisation of the beliefs removes
+   the factors.  Division form (factor_graph.py:95-99, 106-109: sum of ALL incoming messages minus the one going back) agrees with the
+   product over the others wherever the message going back is non-zero. *)
+Definition pexact_upto (k : nat) (m : nat -> nat -> tbl) : Prop :=
+  forall i j, In j (nbrs i) -> height (tr i j) <= k -> exists lam, lam <> zero R /\ forall x, m i j x = mul R lam (Mtrue i j x).
+Lemma prodl_prop (m : nat -> nat -> tbl) i : forall l, (forall k0, In k0 l -> exists lam, lam <> zero R /\ forall y, m k0 i y = mul R lam (Mtrue k0 i y)) ->
+  exists Lam, Lam <> zero R /\ forall y, prodl R (map (fun k0 => m k0 i y) l) = mul R Lam (prodl R (map (fun k0 => Mtrue k0 i y) l)).
+Proof. induction l as [|k0 r IH]; intros H.
+  - exists (one R). split. apply one_neq_zero. intros y. simpl. now rewrite mul_1_l.
+  - destruct (H k0 (or_introl eq_refl)) as [lam [Hl El]]. destruct (IH (fun k1 Hk1 => H k1 (or_intror Hk1))) as [Lam [HL EL]].
+    exists (mul R lam Lam). split.
+    + intro Z. apply no_zero_div in Z. tauto.
+    + intros y. simpl. rewrite El, EL. rewrite <- !mul_assoc. f_equal. rewrite !mul_assoc. f_equal. apply mul_comm. Qed.
+Lemma pflood_from_pexact k (c : K) m i j : pexact_upto k m -> In j (nbrs i) -> height (tr i j) <= S k -> c <> zero R ->
+  exists lam, lam <> zero R /\ forall x, mul R c (flood m i j x) = mul R lam (Mtrue i j x).
+Proof. intros E Hj Hh Hc.
+  destruct (prodl_prop m i (others j (nbrs i))) as [Lam [HL EL]].
+  { intros k0 Hk0. pose proof Hk0 as Hk. unfold others in Hk. apply filter_In in Hk. destruct Hk as [Hk _]. apply E. now apply nbrs_sym.
+    assert (HC : height (tr k0 i) < height (tr i j)).
+    { rewrite (tr_unfold i j Hj). apply height_child. apply in_map_iff. exists k0. split; auto. }
+    lia. }
+  exists (mul R c Lam). split. intro Z. apply no_zero_div in Z. tauto.
+  intros x. unfold flood. rewrite (Mtrue_rec i j Hj).
+  rewrite (@sum_vars_ext R shape (elimv scope i j) (F R nbrs psi m i j) (@tscale R Lam (F R nbrs psi Mtrue i j))).
+  2:{ intros y. unfold F, tscale. rewrite EL. rewrite !mul_assoc. f_equal. apply mul_comm. }
+  rewrite (@sum_vars_scale R shape). unfold tscale. now rewrite mul_assoc. Qed.
+
+(* a step of the code's form: selected messages are recomputed and rescaled by a non-zero factor that may depend on everything *)
+Definition nstep (U : nat -> nat -> bool) (c : (nat -> nat -> tbl) -> nat -> nat -> K) (m : nat -> nat -> tbl) : nat -> nat -> tbl :=
+  fun i j => if U i j then (fun x => mul R (c m i j) (flood m i j x)) else m i j.
+Lemma nstep_keeps k U c m : (forall m' i j, c m' i j <> zero R) -> pexact_upto k m -> pexact_upto k (nstep U c m).
+Proof. intros Hc E i j Hj Hh. unfold nstep. destruct (U i j). apply (pflood_from_pexact k (c m i j) m i j E Hj). lia. apply Hc. now apply E. Qed.
+Lemma nstep_edge k U c m i j : (forall m' i j, c m' i j <> zero R) -> pexact_upto k m -> In j (nbrs i) -> height (tr i j) <= S k ->
+  (U i j = true \/ exists lam, lam <> zero R /\ forall x, m i j x = mul R lam (Mtrue i j x)) ->
+  exists lam, lam <> zero R /\ forall x, nstep U c m i j x = mul R lam (Mtrue i j x).
+Proof. intros Hc E Hj Hh H. unfold nstep. destruct (U i j) eqn:EU. apply (pflood_from_pexact k (c m i j) m i j E Hj Hh). apply Hc.
+  destruct H as [H|H]. discriminate. exact H. Qed.
+Definition nsweep (Us : list ((nat -> nat -> bool) * ((nat -> nat -> tbl) -> nat -> nat -> K))) (m : nat -> nat -> tbl) :=
+  fold_left (fun m Uc => nstep (fst Uc) (snd Uc) m) Us m.
+Definition nz_scalings (Us : list ((nat -> nat -> bool) * ((nat -> nat -> tbl) -> nat -> nat -> K))) : Prop :=
+  forall Uc, In Uc Us -> forall m' i j, snd Uc m' i j <> zero R.
+Lemma nsweep_keeps k Us : nz_scalings Us -> forall m, pexact_upto k m -> pexact_upto k (nsweep Us m).
+Proof. induction Us as [|Uc r IH]; intros NZ m E; simpl; auto. apply IH. intros Uc' H. apply NZ. now right.
+  apply nstep_keeps; auto. apply (NZ Uc). now left. Qed.
+Lemma nsweep_edge k Us : nz_scalings Us -> forall m i j, pexact_upto k m -> In j (nbrs i) -> height (tr i j) <= S k ->
+  (existsb (fun Uc => fst Uc i j) Us = true \/ exists lam, lam <> zero R /\ forall x, m i j x = mul R lam (Mtrue i j x)) ->
+  exists lam, lam <> zero R /\ forall x, nsweep Us m i j x = mul R lam (Mtrue i j x).
+Proof. induction Us as [|Uc r IH]; intros NZ m i j E Hj Hh H; simpl in *.
+  - destruct H as [H|H]. discriminate. exact H.
+  - assert (NZ1 : forall m' i j, snd Uc m' i j <> zero R) by (apply (NZ Uc); now left).
+    apply IH; auto. intros Uc' H'. apply NZ. now right. now apply nstep_keeps.
+    destruct H as [H|H].
+    + apply orb_true_iff in H. destruct H as [H|H]. right. apply (nstep_edge k (fst Uc) (snd Uc) m i j NZ1 E Hj Hh). now left. now left.
+    + right. apply (nstep_edge k (fst Uc) (snd Uc) m i j NZ1 E Hj Hh). now right. Qed.
+Definition ncovers (Us : list ((nat -> nat -> bool) * ((nat -> nat -> tbl) -> nat -> nat -> K))) : Prop :=
+  forall i j, In j (nbrs i) -> existsb (fun Uc => fst Uc i j) Us = true.
+Theorem nsweeps_reach_true_messages Us n m0 : nz_scalings Us -> ncovers Us -> pexact_upto n (Nat.iter n (nsweep Us) m0).
+Proof. intros NZ C. induction n as [|n IH]; simpl.
+  - intros i j Hj Hh. exfalso. destruct (tr i j); simpl in Hh; lia.
+  - intros i j Hj Hh. apply (nsweep_edge n Us NZ _ i j IH Hj Hh). left. now apply C. Qed.
+
+(* beliefs from messages that are true up to non-zero scalars, each belief normalised by ITS OWN mass (factor_graph.py:160-168) *)
+Lemma SRth_link : semi_ring_theory (zero R) (one R) (add R) (mul R) (@eq K).
+Proof. constructor.
+  - intros; apply add_0_l. - intros; apply add_comm. - intros; apply add_assoc. - intros; apply mul_1_l. - intros; apply mul_0_l.
+  - intros; apply mul_comm. - intros; apply mul_assoc.
+  - intros x y z. rewrite (mul_comm R (add R x y) z), distr_l, (mul_comm R z x), (mul_comm R z y). reflexivity. Qed.
+Add Ring Kring_link : SRth_link.
+Lemma cancel_link (x y k : K) : k <> zero R -> mul R x k = mul R y k -> x = y.
+Proof. intros Hk E. rewrite <- (div_mul R x Hk), E. now apply div_mul. Qed.
+Lemma rescale_cancels (lam b total Zt : K) : lam <> zero R -> Zt <> zero R ->
+  mul R (mul R lam b) (div R total (mul R lam Zt)) = mul R b (div R total Zt).
+Proof. intros Hl Hz. set (q := div R total (mul R lam Zt)). set (r := div R total Zt).
+  assert (NZ : mul R lam Zt <> zero R). { intro Z. apply no_zero_div in Z. tauto. }
+  assert (Q : mul R q (mul R lam Zt) = total) by (apply mul_div; exact NZ).
+  assert (Rr : mul R r Zt = total) by (apply mul_div; exact Hz).
+  assert (E : mul R q lam = r). { apply (cancel_link (mul R q lam) r Zt Hz). rewrite Rr, <- Q. ring. }
+  transitivity (mul R b (mul R q lam)). ring. now rewrite E. Qed.
+Theorem proportional_messages_give_marginals n m total c x : pexact_upto n m -> (forall i j, In j (nbrs i) -> height (tr i j) <= n) ->
+  c < ncl -> valid x -> sum_vars (scope c) (belief_of_msgs Mtrue c) base0 <> zero R ->
+  mul R (belief_of_msgs m c x) (div R total (sum_vars (scope c) (belief_of_msgs m c) base0)) = @brute R shape D ncl psi total (scope c) x.
+Proof. intros EX H Hc Vx NZ.
+  destruct (prodl_prop m c (nbrs c)) as [Lam [HL EL]].
+  { intros k0 Hk0. apply EX. now apply nbrs_sym. apply H. now apply nbrs_sym. }
+  assert (B : forall y, belief_of_msgs m c y = mul R Lam (belief_of_msgs Mtrue c y)).
+  { intros y. unfold belief_of_msgs. rewrite EL. ring. }
+  assert (Zs : sum_vars (scope c) (belief_of_msgs m c) base0 = mul R Lam (sum_vars (scope c) (belief_of_msgs Mtrue c) base0)).
+  { rewrite (@sum_vars_ext R shape (scope c) (belief_of_msgs m c) (@tscale R Lam (belief_of_msgs Mtrue c))) by (intros y; apply B).
+    rewrite (@sum_vars_scale R shape). reflexivity. }
+  rewrite B, Zs, rescale_cancels by assumption.
+  apply (true_messages_give_marginals n Mtrue total c c x); auto. intros i j Hj Hh y. reflexivity. Qed.
+Corollary nsweeps_exact Us n m0 total c x : nz_scalings Us -> ncovers Us -> (forall i j, In j (nbrs i) -> height (tr i j) <= n) ->
+  c < ncl -> valid x -> sum_vars (scope c) (belief_of_msgs Mtrue c) base0 <> zero R ->
+  mul R (belief_of_msgs (Nat.iter n (nsweep Us) m0) c x) (div R total (sum_vars (scope c) (belief_of_msgs (Nat.iter n (nsweep Us) m0) c) base0))
+  = @brute R shape D ncl psi total (scope c) x.
+Proof. intros NZ C. apply proportional_messages_give_marginals. now apply nsweeps_reach_true_messages. Qed.
+
+(* the division form: (product over ALL neighbours) / (the message going back) = product over the others, wherever that message is non-zero *)
+Lemma filter_all_true (f : nat -> bool) : forall l, (forall k, In k l -> f k = true) -> filter f l = l.
+Proof. induction l as [|a r IH]; intros H; simpl; auto. rewrite (H a (or_introl eq_refl)). f_equal. apply IH. intros k Hk. apply H. now right. Qed.
+Lemma prodl_split_div (g : nat -> K) j : forall l, NoDup l -> In j l -> g j <> zero R ->
+  @sdiv R (prodl R (map g l)) (g j) = prodl R (map g (others j l)).
+Proof. induction l as [|a r IH]; intros ND Hj Hg. contradiction. inversion ND as [|? ? Ha Hr]; subst. simpl. unfold others in *. simpl.
+  assert (SD : forall p q : K, q <> zero R -> @sdiv R (mul R p q) q = p).
+  { intros p q Hq. unfold BP.sdiv. destruct (eqz R q) eqn:E. apply eqz_spec in E. contradiction. now apply div_mul. }
+  destruct (Nat.eqb_spec a j) as [->|N].
+  - simpl. assert (NJ : filter (fun k => negb (k =? j)) r = r).
+    { apply filter_all_true. intros k Hk. destruct (Nat.eqb_spec k j) as [->|]; [contradiction|reflexivity]. }
+    rewrite NJ. rewrite (mul_comm R (g j)). now apply SD.
+  - simpl. destruct Hj as [Hj|Hj]. contradiction. rewrite <- (IH Hr Hj Hg).
+    unfold BP.sdiv. destruct (eqz R (g j)) eqn:E. apply eqz_spec in E. contradiction.
+    (* (g a * P) / g j = g a * (P / g j) *)
+    apply (cancel_link _ _ (g j) Hg). rewrite (mul_div R _ Hg). rewrite <- mul_assoc. now rewrite (mul_div R _ Hg). Qed.
 End Link.
